@@ -634,13 +634,50 @@ func ruleC18(c *Check) {
 	c.issueOrder()
 	c.idLengthChecks()
 	c.ownerIsSigner("C18")
+	c.recordKeysFromMessage("C18.9")
+}
+
+// recordKeysFromMessage: a definition / binding record is stored under the key built from the very name (and
+// provider) the message carries and the existence check looked up — not from a transformed copy, which would
+// make distinct names share a key or store a record where lookups by its name do not find it.
+func (c *Check) recordKeysFromMessage(rule string) {
+	want := map[string]struct {
+		fam    string
+		fields []string
+	}{
+		"MsgDefineService": {"0x01", []string{"Name"}},
+		"MsgBindService":   {"0x02", []string{"ServiceName", "Provider"}},
+	}
+	n := 0
+	for _, en := range c.entries(rule) {
+		w, ok := want[en.Msg]
+		if !ok {
+			continue
+		}
+		for _, e := range c.P.SummaryOf(en.Handler).Effs {
+			if e.Kind != "store" || e.Op != "Set" || e.Family != w.fam || !e.Commit {
+				continue
+			}
+			n++
+			k := keyArgs(e)
+			okk := len(k) == len(w.fields)
+			for i := 0; okk && i < len(k); i++ {
+				if k[i].String() != en.Field(w.fields[i]) {
+					okk = false
+				}
+			}
+			c.req(okk, rule, effConstruct(en.Msg, e)+"#key-from-message", e.Pos,
+				"the record key is built from the message's own "+strings.Join(w.fields, ", ")+": "+fmtTerms(k))
+		}
+	}
+	c.req(n >= 2, rule, "record-key-sites", token.NoPos, fmt.Sprintf("%d record writes of define / bind checked", n))
 }
 
 // requestIDLeads: the family's trailing id is a request id (generated by the
 // id writer, or admitted only when the request record for the same id exists)
 // and the id layout starts with context id ‖ 8-byte batch counter.
 func (c *Check) requestIDLeads(fam string) string {
-	g := c.P.FuncNamed("types.GenerateRequestID")
+	g := c.typesFn("GenerateRequestID")
 	if g == nil {
 		return "the request-id writer is missing"
 	}
@@ -663,7 +700,7 @@ func (c *Check) requestIDLeads(fam string) string {
 				continue
 			}
 			id := key.A[len(key.A)-1]
-			if id.ContainsOp("types.GenerateRequestID") {
+			if id.ContainsOp(c.typesName("GenerateRequestID")) {
 				found = true
 				continue
 			}
